@@ -620,14 +620,14 @@ def run(tier, seed):
                 lambda: terms_job(wd, "terms1", 1, "full", 1, 600)]
         plan2 = []
     else:
-        plan = [lambda: tlc_job(wd, "exprA", "expr", 6, 3000, maxnodes=6, triples=(1, 2, 3, 4, 5, 6), heap="8g"),
+        plan = [lambda: tlc_job(wd, "exprA", "expr", 8, 3000, maxnodes=6, triples=(1, 2, 3, 4, 5, 6), heap="8g"),
                 lambda: tlc_job(wd, "cases", "cases", 2, 1200, maxcases=8, maxfull=8, pooln=2),
                 lambda: tlc_job(wd, "cases4", "cases", 2, 1200, maxcases=5, maxfull=5, pooln=4),
                 lambda: tlc_job(wd, "thr", "thr", 2, 1200, thr=(0, 65535)),
                 lambda: tlc_job(wd, "given", "given", 2, 3000, given=[g[0] for g in given], envs=genvs, heap="6g"), ages_job,
                 lambda: terms_job(wd, "terms1", 1, "full", 1, 600),
                 lambda: terms_job(wd, "terms2", 2, "side", 2, 1800, heap="4g")]
-        plan2 = [lambda: tlc_job(wd, "exprB", "expr", 6, 6000, maxnodes=7, triples=(3, 1), heap="8g"),
+        plan2 = [lambda: tlc_job(wd, "exprB", "expr", 8, 6000, maxnodes=7, triples=(3, 1), heap="8g"),
                  lambda: tlc_job(wd, "exprFixed", "expr", 2, 3000, variant="fixed", maxnodes=6, triples=(3,))]
     tl = run_parallel(plan)
     tl += run_parallel(plan2)
